@@ -19,3 +19,26 @@ PROPS["C19"] = dict(
     outside="sequences longer than the bound; more than one Reverse per history; NaN priorities (Push accepts them; not in 'non-negative priorities')",
     assumptions=COMMON_ASSUME + ["priorities are finite, non-negative, non-NaN (modelled as integer-valued reals in [0,2^20]; only comparisons are applied to them)"],
 )
+
+PROPS["C10"] = dict(
+    level="model_checking",
+    technique="bounded symbolic execution of go/ssa (gosmt) + SMT: 128-bit id and partition count as bit-vector variables; z3 5.1 and cvc5 (bv-as-int) must both answer unsat",
+    explanation="UuidMod/getPartitionForId/groupBatchItemsByPartition/Insert/Update/Remove/Batch* executed symbolically; owner compared with the reference ((lo mod n)+(hi mod n)) mod n for all ids",
+    runs={
+        "quick": [
+            dict(pkg="./utils", entry="VerifC10Mod", bounds="maxn=1024", solver="z3-new", workers=1, timeout_ms=60000, reach=["mod-done"]),
+            dict(pkg="./utils", entry="VerifC10Mod", bounds="maxn=1024", solver="cvc5-int", workers=1, timeout_ms=60000, reach=["mod-done"]),
+            dict(pkg="./storage", entry="VerifC10Route", bounds="maxp=4", solver="z3-new", reach=["routed"]),
+            dict(pkg="./storage", entry="VerifC10Group", bounds="maxp=4", solver="z3-new", workers=4, reach=["grouped"]),
+        ],
+        "thorough": [
+            dict(pkg="./utils", entry="VerifC10Mod", bounds="maxn=1024", solver="z3-new", workers=1, timeout_ms=120000, reach=["mod-done"]),
+            dict(pkg="./utils", entry="VerifC10Mod", bounds="maxn=1024", solver="cvc5-int", workers=1, timeout_ms=120000, reach=["mod-done"]),
+            dict(pkg="./storage", entry="VerifC10Route", bounds="maxp=7", solver="z3-new", timeout_ms=60000, reach=["routed"]),
+            dict(pkg="./storage", entry="VerifC10Group", bounds="maxp=5", solver="z3-new", timeout_ms=60000, reach=["grouped"]),
+        ],
+    },
+    outside="partition counts above 1024 (function) / above the stated maxp for the API paths (each partition count is a separate path with the id fully symbolic); n = 0 (division by zero) belongs to C12",
+    assumptions=COMMON_ASSUME + ["z3 4.8.12 does not decide the 64-bit bvurem queries in 60 s; z3 5.1.0 (z3-new) and cvc5 --solve-bv-as-int=sum are used and must agree",
+                                 "remote replicas are harness implementations of pb.DataManagerClient (a Go interface) keyed by node id; the local raft group is absent (a locally hosted owner returns RaftNotLoadedOnNodeErr), which is enough to observe which partition was consulted"],
+)
